@@ -61,7 +61,7 @@ class CatBoost(GBDT):
         if stype.embedding in tf.feat_dict:
             feat = tf.feat_dict[stype.embedding]
             feat = feat.values
-            feat = feat.view(feat.size(0), -1).numpy()
+            feat = feat.reshape(feat.size(0), feat.size(1)).numpy()
             arange = np.arange(offset, offset + feat.shape[1])
             dfs.append(pd.DataFrame(feat, columns=arange))
             offset += feat.shape[1]
